@@ -11,6 +11,7 @@ from vlib import cfgunit, configrun, gen_envelope as GE, gen_json as G, gen_meta
 from vlib.ref_canon import canon
 from vlib import cfgunit as _cfgunit
 from vlib.runner import Inconclusive, Unit, Violation
+from vlib import threaded as _threaded
 from vlib import interfere as _interfere, interrupt as _interrupt
 
 PROPERTY = "C10"
@@ -444,4 +445,5 @@ UNITS = [
     _cfgunit.unit_under_config(PROPERTY, 'signable', exclude=()),
     _interfere.unit_after(PROPERTY, 'primitive', quick=150, thorough=6000),
     _interrupt.unit_interrupted(PROPERTY, 'primitive', quick=18, thorough=450, max_points=150),
+    _threaded.unit_threads(PROPERTY),
 ]
